@@ -216,22 +216,42 @@ def rule_pair(ctx) -> RuleResult:
     # flag of the workspace cached elsewhere): a test of close() that comes out differently for handles in different modes
     ws_cls = ctx.p.cls("Workspace")
     fields = {}
+    requests = set()
+    def resolve(tx, depth=0):
+        """meanings of the attributes of self / argument-less methods of self read by the expression (and by those meanings)"""
+        called = {id(c.func) for c in ast.walk(tx) if isinstance(c, ast.Call)}
+        for a in ast.walk(tx):
+            if isinstance(a, ast.Call) and not a.args and not a.keywords and isinstance(a.func, ast.Attribute) and isinstance(a.func.value, ast.Name) and a.func.value.id == sn:
+                key, name = f"{sn}.{a.func.attr}()", a.func.attr  # an argument-less method the normaliser left in place
+            elif isinstance(a, ast.Attribute) and id(a) not in called and isinstance(a.value, ast.Name) and a.value.id == sn and f"{sn}.{a.attr}" not in handle_texts:
+                key, name = f"{sn}.{a.attr}", a.attr
+            else:
+                continue
+            if key in fields:
+                continue
+            m = self_field_meaning(ctx.p, ws_cls, name, sn)
+            if m is None:
+                continue
+            fields[key] = m[0]
+            # what the workspace remembers about the REQUEST made to the method that binds the handle (a parameter that the
+            # handle is opened with, stored in a field): it may restrict the flush in the read-only direction only - the
+            # obligations below are stated for a workspace that was not asked for 'r'
+            asked = _opened_with(ctx.view(m[1]))
+            for x in ast.walk(m[0]):
+                if isinstance(x, ast.Name) and x.id.endswith("@" + m[1].name) and x.id.split("@")[0] in asked:
+                    requests.add(x.id)
+            if depth < 3:
+                resolve(m[0], depth + 1)
+
     for n in g.nodes:
         if n.kind == "test" and n.ast is not None:
-            tx = plain.x(n.ast)
-            called = {id(c.func) for c in ast.walk(tx) if isinstance(c, ast.Call)}
-            for a in ast.walk(tx):
-                if isinstance(a, ast.Call) and not a.args and not a.keywords and isinstance(a.func, ast.Attribute) and isinstance(a.func.value, ast.Name) and a.func.value.id == sn:
-                    key, name = f"{sn}.{a.func.attr}()", a.func.attr  # an argument-less method the normaliser left in place
-                elif isinstance(a, ast.Attribute) and id(a) not in called and isinstance(a.value, ast.Name) and a.value.id == sn and f"{sn}.{a.attr}" not in handle_texts:
-                    key, name = f"{sn}.{a.attr}", a.attr
-                else:
-                    continue
-                if key not in fields:
-                    m = self_field_meaning(ctx.p, ws_cls, name, sn)
-                    if m is not None:
-                        fields[key] = m[0]
-    with_mode = lambda m: Facts(cl.node, truthy=opened, notnone=opened, value={f"{t}.mode": m for t in handle_texts}, fields=fields)  # noqa: E731
+            resolve(plain.x(n.ast))
+
+    def with_mode(m, asked="r+"):
+        value = {f"{t}.mode": m for t in handle_texts}
+        value.update({r: asked for r in requests})
+        return Facts(cl.node, truthy=opened, notnone=opened, value=value, fields=fields)
+
     writable = with_mode("r+")  # what h5py reports for every file opened 'r+', 'a', 'w', 'x'
     others = [with_mode(m) for m in ("r", "a", "w")]
     mode_tests = [n for n in g.nodes if n.kind == "test" and n.ast is not None and any(writable.ev(n.ast) != o.ev(n.ast) for o in others)]
@@ -252,8 +272,11 @@ def rule_pair(ctx) -> RuleResult:
     else:
         res.inst("Workspace.close: the flush is decided by the mode of the handle being closed", nontrivial=True)
     if mode_tests:
-        skipped = reach3(g, [g.entry], writable, avoid=is_save, normal_only=True)
-        ok = not any(closes(n) for n in skipped)
+        # a writable handle of a workspace that was asked for any of the writable modes
+        ok = True
+        for asked in ("r+", "a"):
+            skipped = reach3(g, [g.entry], with_mode("r+", asked), avoid=is_save, normal_only=True)
+            ok = ok and not any(closes(n) for n in skipped)
         res.inst("Workspace.close: on every writable path the final save happens before File.close()", nontrivial=True, ok=ok)
         if not ok:
             res.find("Workspace", "close", "the final save of the root subtree is conditional", cl.where,
@@ -274,6 +297,26 @@ def rule_pair(ctx) -> RuleResult:
         res.find("Workspace", "save_as", "bytes are copied before the workspace is closed", sa.where,
                  "the copy is taken from an open, unflushed file: the saved file misses everything done since the source was last closed")
     return res
+
+
+def _opened_with(fn) -> set:
+    """Parameters of `fn` that the handle it binds into the gateway field is opened with: names among the arguments of the
+    call whose result is stored in `self._geoh5`, directly or through a local (`fn`: a normalised view, so that a helper doing
+    the binding is seen; aliases expanded)."""
+    stored = [x.value for x in ast.walk(fn.node) if isinstance(x, (ast.Assign, ast.AnnAssign)) and x.value is not None and _is_gateway(fn, _target(x))]
+    values = []
+    for v in stored:
+        if isinstance(v, ast.Name):
+            values += [x.value for x in ast.walk(fn.node) if isinstance(x, (ast.Assign, ast.AnnAssign)) and x.value is not None and isinstance(_target(x), ast.Name) and _target(x).id == v.id]
+        else:
+            values.append(v)
+    names = set()
+    facts = Facts(fn.node)
+    for v in values:
+        for c in ast.walk(facts.x(v)):
+            if isinstance(c, ast.Call):
+                names |= {a.id for arg in list(c.args) + [k.value for k in c.keywords] for a in ast.walk(arg) if isinstance(a, ast.Name)}
+    return names & set(fn.params)
 
 
 def _is_concatenated_flush(c) -> bool:
